@@ -895,7 +895,7 @@ pub fn fill_sweep(out: &mut Outcome, vios: &mut VioSet, quick: bool) {
 pub fn run(ctx: &Ctx) -> Outcome {
     let mut out = Outcome::default();
     let quick = ctx.tier.is_quick();
-    let budget = ctx.tier.budget_s();
+    let budget = ctx.tier.budget_s() * 0.58; // the fractions below add up to 1.6
     let sfx = if quick { "q" } else { "t" };
     let c1 = ClientConc::new(if quick { "client-limit1-q" } else { "client-limit1-t" }, quick, 1);
     let c2 = ClientConc::new(if quick { "client-limit2-q" } else { "client-limit2-t" }, quick, 2);
